@@ -679,6 +679,7 @@ package graph
 //@   after "visited[u.v] = struct{}{}" set fin = ite(!frozen && u.distance < 2147483647, add(fin, u.v), fin)
 //@   after "visited[u.v] = struct{}{}" set frozen = frozen || !(u.distance < 2147483647)
 //@   after "visited[u.v] = struct{}{}" set cnt = cnt + 1
+//@   after "tempDistance := u.distance" assert [no-wrap-while-finite] imp(!frozen, tempDistance == u.distance + weight && weight == wgt(g, u.v, vhash) && 0 <= weight && tempDistance >= u.distance && tempDistance < 2147483647)
 //@   loop 1 invariant graphKept() && rmap1 == g.hash && queueItem != nil && fresh(queueItem) && idxinv(queue) && len(queue) == len(seen1)
 //@   loop 1 invariant forall(k, any, has(queueItem, k) == in(k, seen1)) && forall(k, any, imp(in(k, seen1), has(g.hash, k)))
 //@   loop 1 invariant forall(k, any, imp(in(k, seen1), queueItem[k] != nil && fresh(queueItem[k]) && queueItem[k].v == k && queueItem[k].distance == 2147483647 && queueItem[k].previous == nil && inq(queue, queueItem[k])))
@@ -713,5 +714,6 @@ package graph
 //@   loop 4 invariant dC1(g, queueItem, visited, srchash)
 //@   loop 4 invariant dC2(g, queueItem, visited, srchash)
 //@   loop 4 invariant dC4(g, queueItem, visited, srchash)
+//@   loop 4 invariant dC5(g, queueItem, visited, srchash)
 //@   loop 4 invariant forall(k, any, imp(has(g.hash, k), has(visited, k)))
 //@   loop 4 invariant forall(k, any, has(distTo, k) == in(k, seen4) && has(edgeTo, k) == in(k, seen4) && imp(in(k, seen4), has(g.hash, k) && distTo[k] == dd(queueItem, k) && edgeTo[k] == g.hash[pp(queueItem, k)]))
